@@ -1,9 +1,17 @@
 package checks
 
 import (
+	"fmt"
+	"strings"
+	"time"
+
 	"github.com/DrmagicE/gmqtt/persistence/subscription"
+	"github.com/DrmagicE/gmqtt/server"
+	"github.com/DrmagicE/gmqtt/zzverif/vsched"
 
 	"verif/explore"
+	"verif/harness"
+	"verif/refmqtt"
 )
 
 func init() { register("C11", runC11) }
@@ -60,5 +68,263 @@ func runC11(c *explore.Ctx) {
 	c.Level = "model_checking"
 	c.Rule = "E1: explicit-state BFS to closure over join (Subscribe) / leave (Unsubscribe, UnsubscribeAll) alphabets of shared and non-shared filters on the real mem subscription store; every new state: candidate members per (group, filter) for every topic vs the reference table."
 	c.Trusted = []string{"refmqtt.Match (independent MQTT 4.7 matcher)", "statekey.Dump"}
+	c.Rule += " E2 (wire): every sequence of join / leave (UNSUBSCRIBE, DISCONNECT with session end, take-over with clean start, TerminateSession, session expiry) / publish operations over 3 members, 2 groups, a wildcard shared filter and a non-shared subscription up to the depth on a fresh in-process broker; for every publish EVERY value of rand.Intn (the member pick) is enumerated: exactly one current member of every group receives the message, leavers never, non-shared subscribers always, no retained replay on shared subscribe, wildcard shared filters do not match $-topics."
+	c11Wire(c)
 	c11Store(c)
+}
+
+// ---- E2: wire level, every rand.Intn pick enumerated
+
+var c11Ops = []string{
+	"m1 joins $share/g/a (q1)", "m2 joins $share/g/a (q0)", "m3 joins $share/g/a (q1)", "m1 joins $share/h/a (q1)", "m2 subscribes a (q1)", "m3 joins $share/g/# (q1)",
+	"m1 UNSUBSCRIBE $share/g/a", "m2 DISCONNECT (session ends)", "m3 taken over with clean start", "TerminateSession(m1)", "m3 closes and its session expires",
+	"publish a", "publish $SYS/a",
+}
+
+type c11Member struct {
+	cl      *harness.Client
+	online  bool
+	subs    map[string]byte // full filter -> qos
+}
+
+func c11WireBody(seq []int, report func(rule, class, want, got string), applied *int) func() {
+	return func() {
+		*applied = 0
+		w := harness.NewWorld(harness.DefaultConfig(), server.Hooks{})
+		if w.InitErr != nil {
+			report("init", "failed", "", w.InitErr.Error())
+			return
+		}
+		p := w.Dial("P")
+		p.Connect(harness.ConnectOpts{ClientID: "pub", Clean: true, Version: refmqtt.V5})
+		ms := make([]*c11Member, 3)
+		expiry := []uint32{100, 0, 5}
+		connect := func(i int, name string) {
+			cl := w.Dial(name)
+			o := harness.ConnectOpts{ClientID: fmt.Sprintf("m%d", i+1), Clean: true, Version: refmqtt.V5}
+			if expiry[i] != 0 {
+				o.Props = &refmqtt.Props{SessionExpiry: harness.U32(expiry[i])}
+			}
+			cl.Connect(o)
+			ms[i] = &c11Member{cl: cl, online: true, subs: map[string]byte{}}
+		}
+		for i := range ms {
+			connect(i, fmt.Sprintf("M%d", i+1))
+		}
+		join := func(i int, f string, q byte) bool {
+			m := ms[i]
+			if !m.online {
+				return false
+			}
+			ack, rest := m.cl.Subscribe(0, refmqtt.Sub{Filter: f, QoS: q})
+			if ack == nil || ack.Codes[0] >= 0x80 {
+				report("subscribe", "refused", "granted", fmt.Sprint(ack))
+				return false
+			}
+			if len(rest) != 0 {
+				report("no-retained-on-shared-subscribe", "packets-after-suback", "nothing", pktStrs(rest))
+				return false
+			}
+			m.subs[f] = q
+			return true
+		}
+		npub := 0
+		for i, op := range seq {
+			ok := true
+			switch op {
+			case 0:
+				ok = join(0, "$share/g/a", 1)
+			case 1:
+				ok = join(1, "$share/g/a", 0)
+			case 2:
+				ok = join(2, "$share/g/a", 1)
+			case 3:
+				ok = join(0, "$share/h/a", 1)
+			case 4:
+				ok = join(1, "a", 1)
+			case 5:
+				ok = join(2, "$share/g/#", 1)
+			case 6:
+				m := ms[0]
+				if !m.online {
+					ok = false
+					break
+				}
+				m.cl.Send(&refmqtt.Packet{Type: refmqtt.UNSUBSCRIBE, PacketID: 50, Filters: []string{"$share/g/a"}})
+				vsched.Settle()
+				m.cl.Recv()
+				delete(m.subs, "$share/g/a")
+			case 7:
+				m := ms[1]
+				if !m.online {
+					ok = false
+					break
+				}
+				m.cl.Send(&refmqtt.Packet{Type: refmqtt.DISCONNECT})
+				vsched.Settle()
+				m.cl.Close()
+				vsched.Settle()
+				m.online, m.subs = false, map[string]byte{}
+			case 8:
+				if !ms[2].online {
+					ok = false
+					break
+				}
+				connect(2, fmt.Sprintf("M3-%d", i))
+			case 9:
+				w.Srv.ClientService().TerminateSession("m1")
+				vsched.Settle()
+				ms[0].online, ms[0].subs = false, map[string]byte{}
+			case 10:
+				m := ms[2]
+				if !m.online {
+					ok = false
+					break
+				}
+				m.cl.Close()
+				vsched.Settle()
+				vsched.Advance(26 * time.Second)
+				m.online, m.subs = false, map[string]byte{}
+			case 11, 12:
+				topic := "a"
+				if op == 12 {
+					topic = "$SYS/a"
+				}
+				npub++
+				pl := fmt.Sprintf("x%d", npub)
+				p.Send(&refmqtt.Packet{Type: refmqtt.PUBLISH, Topic: topic, QoS: 1, PacketID: uint16(npub), Payload: []byte(pl)})
+				vsched.Settle()
+				p.Recv()
+				// collect
+				type copyT struct {
+					m   int
+					qos byte
+				}
+				var copies []copyT
+				for mi, m := range ms {
+					if !m.online {
+						continue
+					}
+					for _, r := range m.cl.Recv() {
+						if r.P != nil && r.P.Type == refmqtt.PUBLISH && string(r.P.Payload) == pl {
+							copies = append(copies, copyT{mi, r.P.QoS})
+							if r.P.QoS == 1 {
+								m.cl.Send(&refmqtt.Packet{Type: refmqtt.PUBACK, PacketID: r.P.PacketID})
+							}
+						}
+					}
+				}
+				vsched.Settle()
+				// expectation: one copy per (group, filter) with >=1 current member, to a current member,
+				// at min(1, member qos); plus one per matching non-shared subscriber (onlyonce)
+				per := make([]int, len(ms))
+				for _, cp := range copies {
+					per[cp.m]++
+				}
+				groups := map[string][]int{}
+				nonShared := make([]int, len(ms))
+				for mi, m := range ms {
+					for f := range m.subs {
+						g, filt, sh := refmqtt.SplitShared(f)
+						if !refmqtt.Match(topic, filt) {
+							continue
+						}
+						if sh {
+							groups[g+"|"+filt] = append(groups[g+"|"+filt], mi)
+						} else {
+							nonShared[mi] = 1
+						}
+					}
+				}
+				total := 0
+				for mi := range ms {
+					extra := per[mi] - nonShared[mi]
+					if extra < 0 {
+						report("delivery", "non-shared-subscriber-missed-message", fmt.Sprint(nonShared), fmt.Sprint(per))
+						return
+					}
+					// a member can be picked by at most the number of groups it is in
+					ng := 0
+					for _, mem := range groups {
+						for _, x := range mem {
+							if x == mi {
+								ng++
+							}
+						}
+					}
+					if extra > ng {
+						cl := "copy-for-a-client-that-is-not-a-current-member"
+						if topic == "$SYS/a" {
+							cl = "wildcard-shared-filter-matched-a-$-topic"
+						}
+						report("delivery", cl, fmt.Sprintf("member %d in %d matching groups", mi+1, ng), fmt.Sprint(per))
+						return
+					}
+					total += extra
+				}
+				if total != len(groups) {
+					cl := fmt.Sprintf("groups-with-members-%d-copies-%d", len(groups), total)
+					if total < len(groups) {
+						cl = "group-with-live-members-got-no-copy"
+					} else {
+						cl = "group-got-more-than-one-copy"
+					}
+					report("delivery", cl, fmt.Sprintf("one copy per group %v", groups), fmt.Sprint(per))
+					return
+				}
+				for _, cp := range copies {
+					if cp.qos > 1 {
+						report("delivery", "qos-above-published", "<=1", fmt.Sprint(cp.qos))
+						return
+					}
+				}
+			}
+			if !ok {
+				return
+			}
+			*applied = i + 1
+		}
+		if pn := w.SwallowedPanic(); pn != "" {
+			report("no-panic", "recovered: "+trimTo(pn, 80), "no panic", pn)
+		}
+	}
+}
+
+func c11Wire(c *explore.Ctx) {
+	depth := 4
+	if !c.Quick() {
+		depth = 5
+	}
+	c.Extra["wire_depth"] = depth
+	treeUnits(c, "wire", len(c11Ops), depth, func(seq []int) int {
+		// only sequences that end with a publish are informative; others are prefixes
+		names := func() []string {
+			out := make([]string, len(seq))
+			for i, e := range seq {
+				out[i] = c11Ops[e]
+			}
+			return out
+		}
+		applied := 0
+		var problems [][4]string
+		body := c11WireBody(seq, func(rule, class, want, got string) { problems = append(problems, [4]string{rule, class, want, got}) }, &applied)
+		maxApplied := 0
+		n := explore.EnumerateFree(c, "c11-wire", func() { problems = nil; body() }, func(r *vsched.Result, choices []int) {
+			cas := map[string]any{"part": "wire", "ops": names(), "seq": append([]int{}, seq...), "choices": choices}
+			if r.Panic != "" {
+				c.Violate("no-panic", panicClass(r.Panic), cas, "no panic", firstLines(r.Panic, 10))
+			}
+			if r.Deadlock {
+				c.Violate("no-deadlock", "harness-blocked@"+r.ParkedMain, cas, "completes", strings.Join(r.Parked, ","))
+			}
+			for _, p := range problems {
+				c.Violate(p[0], p[1], cas, p[2], p[3])
+			}
+			if applied > maxApplied {
+				maxApplied = applied
+			}
+		})
+		c.Count("rand_pick_executions", int64(n))
+		return maxApplied
+	})
 }
